@@ -109,6 +109,7 @@ class ClassInfo:
     methods: dict = field(default_factory=dict)    # name -> FuncRef
     class_consts: dict = field(default_factory=dict)  # name -> ast expr (ClassVar / enum members)
     is_enum: bool = False
+    abstract: bool = False
     enum_members: list = field(default_factory=list)  # [(name, value ast/py)]
     subclasses: list = field(default_factory=list)
 
@@ -119,6 +120,10 @@ class ClassInfo:
                 if c not in out:
                     out.append(c)
         return out
+
+    def instance_classes(self):
+        """Classes an instance declared with this class may have (abstract classes have no direct instances)."""
+        return [c for c in self.all_subclasses() if not c.abstract] or [self]
 
     def all_subclasses(self):
         out = [self]
@@ -224,6 +229,8 @@ class ClassTable:
                         kind = dn
                     if dn.endswith(".setter"):
                         kind = "setter"
+                if any(ast.unparse(d) in ("abstractmethod", "abc.abstractmethod") for d in st.decorator_list):
+                    ci.abstract = True
                 if kind != "setter":
                     ci.methods[st.name] = FuncRef(mi, ci, st, kind)
             elif isinstance(st, ast.AnnAssign) and isinstance(st.target, ast.Name):
@@ -310,15 +317,17 @@ def ann_fact(t, ann, ct: ClassTable):
         return z3.Or(V.is_VList(t), V.is_VTuple(t))
     if k == "tuple":
         return V.is_VTuple(t)
-    if k in ("set", "frozenset"):
-        return V.is_VSet(t)
+    if k == "set":
+        return z3.And(V.is_VSet(t), z3.Not(V.fz(t)))
+    if k == "frozenset":
+        return z3.And(V.is_VSet(t), V.fz(t))
     if k == "dict":
         return V.is_VDict(t)
     if k == "rec":
         return V.is_VRec(t)
     if k == "obj":
         ci = ann[1]
-        ids = [c.cid for c in ci.all_subclasses()]
+        ids = [c.cid for c in ci.instance_classes()]
         return z3.And(V.is_VObj(t), z3.Or([V.cls(t) == i for i in ids]))
     if k == "union":
         fs = [ann_fact(t, a, ct) for a in ann[1]]
